@@ -90,7 +90,15 @@ Start(e) ==
                   [] e.mode = "bmbootstrap" -> <<Ev("noop", 0, 0, FALSE, 0, FALSE, wp - 1)>>
                   [] e.mode = "tail" -> ExpectedTailOf(log, kd, e.id, e.n, wp, c)
                   [] OTHER -> <<>>
-              IN /\ wst' = Put(wst, e.w, Remote(e, Watcher(kd, e.id, e.filt, wp, pre)))
+                  (* a tail watch starts READING at the oldest position of its tail (kind watch: wp - min(n, cap - gap);  *)
+                  (* single resource: the n-th matching event from the end, or the oldest retained position), so it is   *)
+                  (* born with that much lag: a consumer that does not drain the tail before further writes wrap the      *)
+                  (* buffer legitimately ends in Errored                                                                   *)
+                  ts == IF e.mode # "tail" THEN wp
+                        ELSE IF kd = "all" THEN Max(wp - Min(e.n, c - Gap), 0)
+                        ELSE IF Len(pre) >= e.n /\ Len(pre) > 0 THEN pre[1].bm ELSE Retained(wp, c)
+                  w0 == Watcher(kd, e.id, e.filt, wp, pre)
+              IN /\ wst' = Put(wst, e.w, Remote(e, [w0 EXCEPT !.dpos = ts, !.maxlag = wp - ts]))
                  /\ UNCHANGED <<log, cur, tid, bad>>
 
 (* ---- one received event ---- *)
